@@ -179,6 +179,13 @@ class ExcelInPython:
                     return self._by_operator(operator, str(left_operand), str(right_operand))
 
 
+    @staticmethod
+    def _area_shape(area):
+        # rows x columns of an area handed over as a list of rows; None for anything else (a single value)
+        if isinstance(area, list) and area and all(isinstance(row, list) for row in area):
+            return len(area), len(area[0])
+        return None
+
     def _flatten_list(self, subject: List) -> List:
         result = []
         for i in subject:
@@ -718,6 +725,7 @@ class ExcelInPython:
         # содержащие значение FALSE, оцениваются как 0 (ноль).
         _when_bool_cast_to_int = lambda l: [int(i) if isinstance(i, bool) else i for i in l]
 
+        average_range_shape = self._area_shape(average_range)
         average_range = self._flatten_list(average_range)
         # If average_range is a blank or text value, AVERAGEIFS returns the #DIV0! error value.
         if not average_range or isinstance(average_range, str) or isinstance(average_range, self.EmptyCell):
@@ -733,6 +741,9 @@ class ExcelInPython:
         range_and_criteria_zip = []
         for i in range_and_criteria:
             if not range_and_criteria_zip or len(range_and_criteria_zip[-1]) == 2:
+                # the ranges are laid over each other cell by cell: same height and width, not merely as many cells (3x2 over 2x3)
+                if average_range_shape and self._area_shape(i) and self._area_shape(i) != average_range_shape:
+                    raise self.ExcelInPythonException('Invalid averageifs range size')
                 i = self._flatten_list(i)
                 if len(average_range) != len(i):
                     raise self.ExcelInPythonException('Invalid averageifs range size')
@@ -756,11 +767,15 @@ class ExcelInPython:
     def _countifs(self, count_range: List[List], count_condition: Callable, *range_n_criteria):
         # Если ячейка в диапазоне критериев пуста, COUNTIFS обрабатывает ее как значение 0.
 
+        count_range_shape = self._area_shape(count_range)
         count_range = self._flatten_list(count_range)
 
         range_and_criteria_zip = []
         for i in range_n_criteria:
             if not range_and_criteria_zip or len(range_and_criteria_zip[-1]) == 2:
+                # the ranges are laid over each other cell by cell: same height and width, not merely as many cells (3x2 over 2x3)
+                if count_range_shape and self._area_shape(i) and self._area_shape(i) != count_range_shape:
+                    raise self.ExcelInPythonException('Invalid countifs range size')
                 i = self._flatten_list(i)
                 if len(count_range) != len(i):
                     raise self.ExcelInPythonException('Invalid countifs range size')
@@ -814,11 +829,15 @@ class ExcelInPython:
         # содержащие значение FALSE, оцениваются как 0 (ноль).
         _when_bool_cast_to_int = lambda l: [int(i) if isinstance(i, bool) else i for i in l]
 
+        sum_range_shape = self._area_shape(sum_range)
         sum_range = self._flatten_list(sum_range)
 
         range_and_criteria_zip = []
         for i in range_and_criteria:
             if not range_and_criteria_zip or len(range_and_criteria_zip[-1]) == 2:
+                # the ranges are laid over each other cell by cell: same height and width, not merely as many cells (3x2 over 2x3)
+                if sum_range_shape and self._area_shape(i) and self._area_shape(i) != sum_range_shape:
+                    raise self.ExcelInPythonException('Invalid sumifs range size')
                 i = self._flatten_list(i)
                 if len(sum_range) != len(i):
                     raise self.ExcelInPythonException('Invalid sumifs range size')
